@@ -40,6 +40,8 @@ Fixpoint src_of (tr : xtrace) (i : N) : option N :=
 Definition copied_updates (tr : xtrace) : list N :=
   flat_map (fun e => match snd e with XOk k => [k] | XErr _ => [] end) tr.
 
+Definition EPREMATURE : N := 1000.   (* model-only code: "Source file ended prematurely" *)
+
 Record loop_out := mkOut { o_st : status; o_trace : xtrace; o_rest : list xans }.
 
 Definition out_cons (e : xreq * xans) (o : loop_out) : loop_out :=
@@ -52,6 +54,8 @@ Definition out_app (tr : xtrace) (o : loop_out) : loop_out :=
 (*   while written < len {                                             *)
 (*     let bytes_to_copy = min(len - written, block_size);             *)
 (*     let bytes = copy_file_bytes(in, out, bytes_to_copy)?;           *)
+(*     if bytes == 0 { return Err(..) }   (after `fix: copy_bytes fails   *)
+(*                                         instead of spinning`)        *)
 (*     written += bytes;  updates.send(Copied(bytes))?;  }             *)
 (* `cur` is the common position of the two descriptor cursors.         *)
 (* ------------------------------------------------------------------ *)
@@ -64,7 +68,9 @@ Fixpoint copy_bytes (fuel : nat) (bs len written cur : N) (ans : list xans) : lo
       match ans with
       | [] => mkOut StStuck [] []
       | XErr e :: rest => mkOut (StErr e) [(req, XErr e)] rest
-      | XOk k :: rest => out_cons (req, XOk k) (copy_bytes f bs len (written + k) (cur + k) rest)
+      | XOk k :: rest =>
+          if k =? 0 then mkOut (StErr EPREMATURE) [(req, XOk 0)] rest     (* no progress: fail, do not spin *)
+          else out_cons (req, XOk k) (copy_bytes f bs len (written + k) (cur + k) rest)
       end
   end.
 
@@ -106,8 +112,6 @@ Definition block_job_pinned (off bytes : N) (ans : list xans) : loop_out :=
    is complete; a zero-byte answer ends the job — normally at/after the end of
    the source (extent ranges are block-granular and may overhang the file),
    as an error when bytes are still missing before the end of the source. *)
-Definition EPREMATURE : N := 1000.   (* model-only code: "Source file ended prematurely" *)
-
 Fixpoint block_job (fuel : nat) (flen off bytes done : N) (ans : list xans) : loop_out :=
   match fuel with
   | O => mkOut StOutOfFuel [] ans
